@@ -689,6 +689,7 @@ func TestC12Concurrent(t *testing.T) {
 	defer run.Finish()
 	if run.Shard == 0 {
 		parkedPublisher(run)
+		reattachedID(run)
 	}
 	n := run.Scale(150, 5000)
 	procs := []int{2, 4, 16, 1}
